@@ -18,7 +18,7 @@ Section ExprInd.
     end.
 End ExprInd.
 
-Definition ev : Type := (nat * list Z)%type.
+Notation ev := (nat * list Z)%type.
 
 (* value and trace of an expression when no function writes a variable: they depend on the store only *)
 Fixpoint val (fe : fenv) (s : store) (e : expr) : Z :=
